@@ -43,15 +43,16 @@ run_wal_obligations(ck, ex, sc, K, LENS, 'tensor')
 # ------------------------------------------------------------------ manual sync: acknowledged = covered by a later sync()
 ck.declare('S1_synced_records_survive', 'manual sync mode: append r1, append r2, sync(), append r3 (unsynced); crash at every length >= the synced length',
            'replay is Ok, starts with r1 r2 (acknowledged by the sync) and contains nothing but a prefix of r1 r2 r3')
-ck.declare('T1_truncate_then_continue', 'manual sync mode: append r1 (still buffered), truncate() [the checkpoint step], append r2, sync(), append r3 (unsynced); crash at every length >= the synced length',
-           'replay is Ok, starts with r2 and contains nothing but a prefix of r2 r3: nothing written before the truncation comes back, nothing acknowledged after it is lost')
+ck.declare('T1_truncate_then_continue', 'manual sync mode: append r1, r2 (still buffered), truncate() [the checkpoint step], append r3, sync(), append r4 (unsynced); crash at every length >= the synced length; '
+           'and the same with one buffered record',
+           'replay is Ok, starts with the record synced after the truncation and contains nothing but a prefix of the records written after it: nothing written before the truncation comes back, nothing acknowledged after it is lost')
 SM = P.variant_index('SyncMode', 'Manual')
 
 
 def manual_scenario(obl, steps, acked, allnames, L):
     st = ex.new_state()
     st.env['codec_len'] = L
-    for i in (1, 2, 3):
+    for i in (1, 2, 3, 4):
         st.roots[f'r{i}'] = st.fresh('WalEntry', f'r{i}')
     cfg = default_config(st)
     cfg.fields[P.field('WalConfig', 'sync_mode')] = Enum('SyncMode', SM, {}, variant='Manual')
@@ -76,15 +77,17 @@ def manual_scenario(obl, steps, acked, allnames, L):
     f = sc.file(cur)
     ck.notes.append(f'{obl}: file length {len(f.data)}, synced {f.synced}')
     # bytes of r3 still sit in the BufWriter: also explore "flushed by the OS but not synced" by flushing first
-    rs = sc.run(cur, 'TensorWal::flush', [cur.roots['wal']])
+    fl_st = cur.clone()
+    rs = sc.run(fl_st, 'TensorWal::flush', [fl_st.roots['wal']])
     g = [r for r in rs if r.status == 'return']
     variants = [cur] + ([g[0].st] if g else [])
-    for base in variants:
+    for vi, base in enumerate(variants):
         fl = sc.file(base)
         for cut in range(fl.synced, len(fl.data) + 1):
             crashed = sc.crash(base, cut)
             for (s1, wp, e1) in sc.open(crashed, f'{obl} reopen cut={cut}'):
-                wit0 = {'wal': 'tensor-manual', 'steps': list(steps), 'cut': cut, 'synced': fl.synced, 'len': len(fl.data)}
+                wit0 = {'wal': 'tensor-manual', 'steps': list(steps), 'cut': cut, 'synced': fl.synced, 'len': len(fl.data), 'flushed': vi == 1,
+                        'acked': acked, 'allnames': allnames}
                 if wp is None:
                     ck.require(ex, obl, s1.pc, None, z3.BoolVal(False), lambda m, w=dict(wit0, outcome=e1): w, lambda m, w: 'manual-sync')
                     continue
@@ -97,6 +100,7 @@ def manual_scenario(obl, steps, acked, allnames, L):
 for L in LENS[:1]:
     manual_scenario('S1_synced_records_survive', ('r1', 'r2', 'sync', 'r3'), ['r1', 'r2'], ['r1', 'r2', 'r3'], L)
     manual_scenario('T1_truncate_then_continue', ('r1', 'truncate', 'r2', 'sync', 'r3'), ['r2'], ['r2', 'r3'], L)
+    manual_scenario('T1_truncate_then_continue', ('r1', 'r2', 'truncate', 'r3', 'sync', 'r4'), ['r3'], ['r3', 'r4'], L)
 
 # ------------------------------------------------------------------ L: log-before-apply in SlabRouter::{put_durable, delete_durable}
 # The real TensorWal (file model) sits behind `self.wal`; the slabs are opaque (put/delete record that they were called).
@@ -214,6 +218,12 @@ for v in ck.violations:
             v['replayed'] = rep.get('replay1_ok') is False or rep.get('replay1_matches') is False
         else:
             v['replayed'] = rep.get('replay2_ok') is False or rep.get('new_record_recovered') is False or rep.get('replay2_prefix_matches') is False
+    elif w.get('wal') == 'tensor-manual':
+        rep = Replay.call({'op': 'wal_manual', 'steps': w['steps'], 'cut': w['cut'], 'len': w['len'], 'flushed': w['flushed']})
+        v['native'] = rep
+        rp = rep.get('replay', {})
+        names = rp.get('names') or []
+        v['replayed'] = (not rp.get('ok')) or names[:len(w['acked'])] != w['acked'] or names != w['allnames'][:len(names)]
 
 ck.functions += ['TensorWal::open', 'TensorWal::append', 'TensorWal::write_entry_no_sync', 'TensorWal::maybe_sync', 'TensorWal::sync',
                  'TensorWal::replay_with_validation']
